@@ -18,6 +18,7 @@ def run(ctx):
     ctx.rule("R1", "every element lookup in the reader is namespace-aware (known finding per site today)")
     ctx.rule("R2", "lookups for children of a known parent use children(), not descendants() (4 known findings today)")
     ctx.rule("R3", "prototype prefix looked up on the record element for its own namespace; vector entries filtered by vectorChild + type=Structure; extensions from root namespaces")
+    ctx.rule("R5", "record identity is namespace + name: no comparison between the local tag names of two record names")
     ctx.rule("R4", "no reader function finds XML content by position (next sibling, first child, n-th child): foreign elements may sit anywhere")
     prog, info = load_program("lib", "e57")
     ctx.configs["lib"] = info
@@ -26,7 +27,9 @@ def run(ctx):
     import simple_rules
     simple_rules.lookup_by_position(ctx, prog, "R3")
     xml_rules.no_positional_navigation(ctx, prog, "R4")
+    xml_rules.no_local_name_identity(ctx, prog, "R5")
     xml_rules.prototype_order(ctx, prog, "R3")
     xml_rules.inverse_maps(ctx, prog, "R3", "R3", "R3", only=("PointCloud",))
     ctx.cfg = None
     xml_rules.positional_controls(ctx, "R4")
+    xml_rules.local_name_controls(ctx, "R5")
